@@ -997,6 +997,10 @@ class Engine:
                 self._taskFinished = None
                 self._taskLaunched = None
                 self._exitReason = None
+                # VV: Let observers of stateUpdates find out that the engine is alive again. Without this emission
+                # a kill() that arrives before the next periodic emission produces no `isAlive` transition
+                # and those waiting for the engine to die (e.g. ComponentState.finish()) wait forever.
+                self.emit_now()
                 self.run()
                 restartCode = experiment.model.codes.restartCodes['RestartInitiated']
             except Exception as error:
